@@ -32,7 +32,7 @@ pub struct Case {
 fn strat(tier: Tier) -> BoxedStrategy<Case> {
   let max = tier.pick(4096usize, 65536usize);
   (
-    (bytes(max), bytes(64), threshold(tier, 1), any::<u16>()),
+    (bytes(max), epoch(), threshold(tier, 1), any::<u16>()),
     vec(prop_oneof![2 => Just(None), 1 => Just(Some(Hx(vec![]))), 4 => bytes(600).prop_map(Some)], 1..6),
     (prop_oneof![3 => Just(0u8), 2 => Just(1u8), 1 => Just(2u8)], uniform_bytes(32, 32), any::<u8>(), any::<bool>()),
     (sel_spec(), sel_spec()),
